@@ -21,10 +21,41 @@ with warnings.catch_warnings():
     warnings.simplefilter('ignore')            # import once, before any worker process is forked
     import pyg_base                            # noqa: F401
 
-# ---- rendering: the specification's integers -> real datetimes (strictly increasing maps) --------
+# ---- rendering: the specification's integers -> real datetimes and floats -----------------------
+# The specification sees dates, stamps, read times and cells as small integers.  Any strictly
+# increasing map of the times and any injective map of the cells is a faithful rendering, and the
+# property must hold under every one of them.  A *rendering* picks
+#   era     : where the stamps / read times lie - in the past, or AHEAD of the wall clock
+#             (scheduled / embargoed publications: the statement does not care about "now");
+#   palette : which floats the cells 1, 2, 3, ... stand for - whole numbers, or values that differ
+#             only by tiny amounts (a revision from 1000000 to 1000001 is a revision).
+# All palette values are exactly representable, so the way back (float -> cell) is exact equality.
 _D0 = datetime.datetime(2020, 1, 1)
-_S0 = datetime.datetime(2021, 6, 1, 6)
 NDATES = 128
+ERAS = {'past': datetime.datetime(2021, 6, 1, 6), 'future': datetime.datetime(2101, 6, 1, 6)}
+PALETTES = {
+    'whole': lambda k: float(k),                        # 1, 2, 3, ...
+    'close': lambda k: 1.0 + (k - 1) * 2.0 ** -20,      # 1, 1.00000095.., ... (relative steps ~1e-6)
+    'large': lambda k: 1000000.0 + (k - 1),             # 1000000, 1000001, ...
+    'tiny':  lambda k: 2.0 ** -(29 + k),                # 2^-30, 2^-31, ... (absolute steps < 1e-9)
+}
+RENDERINGS = [(e, p) for p in ('whole', 'close', 'large', 'tiny') for e in ('past', 'future')]
+
+
+class _Render(object):
+    def __init__(self):
+        self.use('past', 'whole')
+
+    def use(self, era, palette):
+        self.era, self.palette = era, palette
+        self.s0 = ERAS[era]
+        self.val = {k: PALETTES[palette](k) for k in range(1, 33)}
+        self.cell = {v: k for k, v in self.val.items()}
+        assert len(self.cell) == len(self.val)
+        self.whole = all(v == int(v) for v in self.val.values())
+
+
+RENDER = _Render()        # per process; set at the start of every replayed subtree / recorded history
 
 
 def date_of(d):
@@ -34,32 +65,30 @@ def date_of(d):
 
 def time_of(t):
     """stamp / read time number t; 13 h apart, so the time of day varies"""
-    return _S0 + datetime.timedelta(hours=13 * t)
+    return RENDER.s0 + datetime.timedelta(hours=13 * t)
 
 
 DATE_IX = {pd.Timestamp(date_of(d)): d for d in range(NDATES)}
 
 
 def cell_of(x):
-    return float('nan') if x == 0 else float(x)
+    return float('nan') if x == 0 else RENDER.val[x]
 
 
 def enc_cell(x):
-    """real cell -> the specification's integer: NaN = 0, a positive whole number = itself;
+    """real cell -> the specification's integer: NaN = 0, a value of the palette = its number;
     anything else (never produced from our inputs by a correct store) = -1"""
     x = float(x)
     if math.isnan(x):
         return 0
-    if x == int(x) and 0 < x < 2 ** 20:
-        return int(x)
-    return -1
+    return RENDER.cell.get(x, -1)
 
 
 def version(pairs, dtype='float'):
     vals = [cell_of(c) for _, c in pairs]
     idx = pd.DatetimeIndex([date_of(d) for d, _ in pairs])
-    if dtype == 'int' and all(c != 0 for _, c in pairs):
-        return pd.Series([int(c) for _, c in pairs], idx)
+    if dtype == 'int' and RENDER.whole and all(c != 0 for _, c in pairs):
+        return pd.Series([int(cell_of(c)) for _, c in pairs], idx)
     return pd.Series(vals, idx, dtype=float)
 
 
@@ -172,6 +201,8 @@ def _replay_subtree(ix):
     """depth-first replay of one subtree of TLC's history tree; every node = one more public call on
     the store its parent reached, followed by all reads"""
     root_hist, nodes = _TASKS[ix]
+    era, palette = RENDERINGS[ix % len(RENDERINGS)]
+    RENDER.use(era, palette)
     out = {'evals': 0, 'nodes': 0, 'viol': [], 'notes': [], 'skipped': 0, 'shared_only': 0, 'sample': None}
     spells_m = ('bi', 'asof', 'start')
     spells_r = ('dt', 'ts', 'np')
@@ -201,6 +232,7 @@ def _replay_subtree(ix):
             for T, what, want, got in bad2[:2]:
                 out['viol'].append(('read_latest' if what == -1 else 'read_first',
                                     {'engine': 's2c', 'op': 'read', 'what': what, 'T': T, 'after': e['op'],
+                                     'era': era, 'palette': palette,
                                      'ties': has_ties(hist), 'rows_gt16': False, 'hist': hist},
                                     {'expected': want, 'observed': got}))
         distinct = {json.dumps(r['latest']) for r in reads}
@@ -276,6 +308,8 @@ def _history(args):
     """build and run one random publication history against the real store; returns the event log"""
     seed, hid, big = args
     rng = random.Random(seed)
+    era, palette = RENDERINGS[(hid // 2) % len(RENDERINGS)]      # hid % 2 is the tie / notie mode
+    RENDER.use(era, palette)
     nd = rng.randint(20, 60)
     dates = sorted(rng.sample(range(NDATES), nd))
     mode = ('tie', 'notie')[hid % 2]                  # may publications sharing a stamp overlap in dates?
@@ -287,7 +321,7 @@ def _history(args):
     store = None
     events = []
     s = 2
-    feats = {'mode': mode, 'dates': nd, 'rows_gt16': False, 'batch': False, 'again': 0}
+    feats = {'mode': mode, 'era': era, 'palette': palette, 'dates': nd, 'rows_gt16': False, 'batch': False, 'again': 0}
     pending = []
 
     def pick_cell(d):
@@ -395,7 +429,7 @@ def c2s(ctx, n, big):
         prior = [x for x in h['events'][:k - 1] if x['op'] != 'read']
         found.append((clause, {'engine': 'c2s', 'op': 'read', 'what': e['what'], 'T': e['T'],
                                'after': prior[-1]['op'], 'ties': h['feats']['ties'], 'rows_gt16': h['feats']['rows_gt16'],
-                               'mode': h['feats']['mode'], 'history': hi, 'event': k, 'hist': prior},
+                               'mode': h['feats']['mode'], 'era': h['feats']['era'], 'palette': h['feats']['palette'], 'history': hi, 'event': k, 'hist': prior},
                       {'observed': e}))
     # for the replay files: let the specification say what it expected for the first few
     if found:
@@ -474,7 +508,8 @@ def run(ctx):
         'small scope: MC over <= 2 dates x 4 stamps x {1, 2, NaN} x <= 3 (thorough 4) publications, 1 date deeper, 3 dates shallower; '
         'S2C exhaustive for the gen1/gen2 universes, sampled (TLC -simulate) for 3 dates x 4 stamps x <= 4 publications',
         'dates, stamps and read times are integers in the specification; the driver maps them to datetimes by strictly increasing maps',
-        'values are small positive whole numbers (exact in float64); NaN is the cell 0 of the specification',
+        'cells are numbers in the specification (0 = NaN); the driver renders them by injective palettes of exactly representable floats '
+        '(whole numbers; 1 + k 2^-20; 1000000 + k; 2^-(30 + k)) and the stamps either in the past or ahead of the wall clock (year 2101)',
         'what = 0 with several publications under the first stamp of a date: both readings of "first" are admitted (named deviation FirstPerStamp)',
         'single value column (a series); frames with several columns, bi_asof, existing_data and relative stamps (Bi(df, 0), "now") are outside the statement',
     ]
